@@ -112,3 +112,33 @@ Proof.
   destruct (w_cfg w); [|reflexivity]. destruct (r_patch rs); [|reflexivity]. rewrite Hd. reflexivity.
 Qed.
 Print Assumptions C05_download_dir_untouched.
+
+(* The same "only if" with faults, the files of the download directory included (Fault.v: download_to_path, inflate
+   and check_hash as system-call steps).  For EVERY plan - no fault, process death anywhere, any single failing system
+   call - an update that returns 'installed' has moved into place exactly the file check_hash read back from
+   <n>.full: the inflated output, or what was left of it if the write at the BufWriter's drop failed silently; the
+   SHA-256 of THAT file is the advertised one, and patches_state.json names it with its length (or is garbage, in
+   which case nothing is selected).  A gate on the bytes "intended for disk" does not satisfy this statement. *)
+From UV Require Import Fault FaultDownload.
+Theorem C05_installed_is_the_verified_file_under_faults :
+  forall sha sigok zdec base (c : cfg) r dl (pl : plan) c0 (d0 : disk) c1 d1,
+    do_updateM sha sigok zdec base c r dl pl c0 d0 = (Ret UInstalled, c1, d1) ->
+    exists rs p bdl out fileb,
+      r = Some rs /\ r_patch rs = Some p /\ dl = Some bdl /\ inflate zdec base bdl = Some out /\
+      (fileb = out \/ fileb = flushed_prefix out) /\
+      hash_ok sha fileb (p_hash p) = true /\
+      arts d1 (p_num p) = Some (AFile fileb) /\
+      (pj d1 = JGarbage \/
+       exists s, pj d1 = JOk s /\
+         nb s = Some {| m_num := p_num p; m_size := blen fileb; m_hash := p_hash p; m_sig := p_sig p |} /\
+         ~ In (p_num p) (bad s)).
+Proof. exact installed_is_the_verified_file. Qed.
+Print Assumptions C05_installed_is_the_verified_file_under_faults.
+
+(* a fault in the download directory never touches the persisted state: whatever download_to_path + inflate return
+   or wherever they die, the disk is the one they started from *)
+Theorem C05_download_steps_leave_the_state_alone :
+  forall zdec base bdl (pl : plan) c0 (d0 : disk) o c1 d1,
+    downloadM zdec base bdl pl c0 d0 = (o, c1, d1) -> d1 = d0.
+Proof. exact download_any. Qed.
+Print Assumptions C05_download_steps_leave_the_state_alone.
